@@ -3,7 +3,9 @@ package yqlib
 import (
 	"container/list"
 	"fmt"
+	"math"
 	"sort"
+	"strconv"
 	"strings"
 	"time"
 )
@@ -100,6 +102,17 @@ func isNumberTag(tag string) bool {
 	return tag == "!!int" || tag == "!!float"
 }
 
+// sortableNumber reads a number for sorting; integers the integer parser does not read (beyond int64) are read as floats
+func sortableNumber(tag string, value string) (float64, bool) {
+	if number, err := parseNumberAsFloat(tag, value); err == nil {
+		return number, true
+	}
+	if number, err := strconv.ParseFloat(strings.ReplaceAll(value, "_", ""), 64); err == nil {
+		return number, true
+	}
+	return 0, false
+}
+
 func (a sortableNodeArray) compare(lhs *CandidateNode, rhs *CandidateNode, dateTimeLayout string) int {
 	lhsTag := lhs.Tag
 	rhsTag := rhs.Tag
@@ -167,29 +180,34 @@ func (a sortableNodeArray) compare(lhs *CandidateNode, rhs *CandidateNode, dateT
 		}
 		return 1
 	} else if lhsTag == "!!int" && rhsTag == "!!int" {
-		_, lhsNum, err := parseInt64(lhs.Value)
-		if err != nil {
-			panic(err)
+		_, lhsNum, errLhs := parseInt64(lhs.Value)
+		_, rhsNum, errRhs := parseInt64(rhs.Value)
+		if errLhs == nil && errRhs == nil {
+			// a three-way comparison; the difference overflows for distant int64 values
+			if lhsNum < rhsNum {
+				return -1
+			} else if lhsNum > rhsNum {
+				return 1
+			}
+			return 0
 		}
-		_, rhsNum, err := parseInt64(rhs.Value)
-		if err != nil {
-			panic(err)
+		// a spelling the integer parser does not read (beyond int64, 0b11): compared below
+	}
+	if isNumberTag(lhsTag) && isNumberTag(rhsTag) {
+		lhsNum, lhsOk := sortableNumber(lhsTag, lhs.Value)
+		rhsNum, rhsOk := sortableNumber(rhsTag, rhs.Value)
+		if !lhsOk || !rhsOk {
+			log.Warningf("Could not read %v and %v as numbers for sort, sorting by string instead", lhs.Value, rhs.Value)
+			return strings.Compare(lhs.Value, rhs.Value)
 		}
-		// a three-way comparison; the difference overflows for distant int64 values
-		if lhsNum < rhsNum {
-			return -1
-		} else if lhsNum > rhsNum {
+		// .nan sorts before every other number
+		if math.IsNaN(lhsNum) || math.IsNaN(rhsNum) {
+			if math.IsNaN(lhsNum) && math.IsNaN(rhsNum) {
+				return 0
+			} else if math.IsNaN(lhsNum) {
+				return -1
+			}
 			return 1
-		}
-		return 0
-	} else if (lhsTag == "!!int" || lhsTag == "!!float") && (rhsTag == "!!int" || rhsTag == "!!float") {
-		lhsNum, err := parseNumberAsFloat(lhsTag, lhs.Value)
-		if err != nil {
-			panic(err)
-		}
-		rhsNum, err := parseNumberAsFloat(rhsTag, rhs.Value)
-		if err != nil {
-			panic(err)
 		}
 		if lhsNum == rhsNum {
 			return 0
